@@ -19,6 +19,20 @@ CHECKS = {
         note='Trusted: CrossHair\'s model of str/re/dict (every counterexample is replayed on plain CPython before it is '
              'reported); z3. Bounds: header length, the listed messages, one mutation at a time.',
         ref='DESIGN.md §3 C15'),
+    'C02': dict(
+        technique='solver-based: CrossHair/z3 exhaustion of symbolic table-row indices through the real Segment/Field/parser '
+                  'code (all rows of all 12 versions) + z3 table obligations over ground facts from the live tables',
+        engine='crosshair-e1 + z3-e3',
+        text='Every one of the 23,111 field rows and 11,765 component/subcomponent rows of the 12 versions is driven through '
+             'the real code (set by name -> encode -> count separators -> parse -> read back by name) with the row index '
+             'symbolic and exhausted by CrossHair/z3; every segment entry and complex datatype is instantiated; Z-segments and '
+             'varies-tailed segments are checked for every index pair i<j up to 24 (96 thorough) beyond the defined count. '
+             'Independently z3 decides, per segment/datatype table, that child numbers are strictly increasing (fields) / equal '
+             'to ordinal+1 (components). Exhaustive over the finite table domain, bounded for open-ended indices.',
+        note='Per row the solver contributes exhaustion, not abstraction (each row is a distinct dict key); the library runs '
+             'concretely on the row. E3 assumes the generic code depends on a row only through (ordinal, name, number, datatype) '
+             '- exercised by replaying any reported row. TOLERANT level, plain-text values.',
+        ref='DESIGN.md §3 C02'),
     'C09': dict(
         technique='solver-based: CrossHair/z3 exhaustion of a symbolic bounded operation history on real hl7apy elements, '
                   'compared step by step with a list reference model',
@@ -87,6 +101,9 @@ def main():
         'engines': [
             {'name': 'crosshair-e1', 'path': 'vlib/chworker.py + harness/cNN.py', 'serves_properties': sorted(CHECKS),
              'kind_free_text': E1},
+            {'name': 'z3-e3', 'path': 'vlib/fnworker.py + harness/c02.py (_e3_run)', 'serves_properties': ['C02'],
+             'kind_free_text': 'z3 queries over ground facts extracted from the live version tables on every run; models are '
+                               'replayed through the public API'},
         ],
         'checks': checks,
         'not_applicable': NOT_APPLICABLE + [
